@@ -281,3 +281,74 @@ Arguments iterate_units {I T}. Arguments iterate_images {I T}. Arguments iterate
 Arguments mkSheet {I T}. Arguments s_images {I T}. Arguments s_data {I T}.
 Arguments xlsx_units {I T}. Arguments xlsx_images {I T}. Arguments xlsx_tables {I T}.
 Arguments images_at {I}. Arguments docx_unit_images {I}.
+
+(* ------------------------------------------------------------------ 5. per-format image passes *)
+(* A placement is (target-or-href, flag); names = zip namelist.
+   result: (image_number, member name) — member "" for a record without bytes *)
+Definition placement := (str * Z)%type.
+Definition is_http (h : str) : bool := startswith h (s "http").
+
+Definition fetch_opc (base : str) (names : list str) (pl : placement) : option str :=
+  member_of names (resolve_part base (fst pl)).
+(* ODF frames that keep a record for external links *)
+Definition fetch_odf (names : list str) (pl : placement) : option str :=
+  if is_http (fst pl) then Some [] else member_of names (odf_member (fst pl)).
+
+Definition flag_is (k : Z) (pl : placement) : bool := snd pl =? k.
+(* for anchor_type in (oneCellAnchor, twoCellAnchor, absoluteAnchor): for anchor in root.iter(anchor_type) *)
+Definition xlsx_order (u : list placement) : list placement :=
+  filter (flag_is 0) u ++ filter (flag_is 1) u ++ filter (flag_is 2) u.
+
+(* ODG (and the second pass of ODT): hrefs already seen are skipped *)
+Fixpoint odf_dedupe (names seen : list str) (count_missing : bool) (k : Z) (l : list placement)
+  : list (Z * str) * list str * Z :=
+  match l with
+  | [] => ([], seen, k)
+  | pl :: r =>
+      let h := fst pl in
+      if mem_str h seen then odf_dedupe names seen count_missing k r
+      else match fetch_odf names pl with
+           | Some m => let '(out, sn, k') := odf_dedupe names (h :: seen) count_missing (k + 1) r in ((k + 1, m) :: out, sn, k')
+           | None => if count_missing
+                     then let '(out, sn, k') := odf_dedupe names (h :: seen) count_missing (k + 1) r in ((k + 1, []) :: out, sn, k')
+                     else odf_dedupe names seen count_missing k r
+           end
+  end.
+
+(* ODT first pass: images inside text boxes; external hrefs skipped; every href marked as processed *)
+Fixpoint odt_pass1 (names : list str) (k : Z) (l : list placement) : list (Z * str) * list str * Z :=
+  match l with
+  | [] => ([], [], k)
+  | pl :: r =>
+      let h := fst pl in
+      if is_http h then odt_pass1 names k r
+      else match member_of names (odf_member h) with
+           | Some m => let '(out, sn, k') := odt_pass1 names (k + 1) r in ((k + 1, m) :: out, h :: sn, k')
+           | None => let '(out, sn, k') := odt_pass1 names k r in (out, h :: sn, k')
+           end
+  end.
+
+Definition odt_images (names : list str) (u : list placement) : list (Z * str) :=
+  let '(o1, seen, k) := odt_pass1 names 0 (filter (flag_is 1) u) in
+  let '(o2, _, _) := odf_dedupe names seen false k (filter (flag_is 0) u) in
+  o1 ++ o2.
+
+
+(* ------------------------------------------------------------------ 6. content type from the target's extension *)
+(* docx / pptx:  ext = target.rsplit(".", 1)[-1].lower() ; _CONTENT_TYPE_MAP.get(ext, "image/" + ext)
+   xlsx:         filename = image_path.rsplit("/", 1)[-1]
+                 ext = filename.rsplit(".", 1)[-1].lower() if "." in filename else "" ; map.get(ext, "image/unknown")
+   str.lower is an oracle (a function variable). *)
+(* x.rsplit(sep, 1)[-1] : what follows the last occurrence of sep (all of x when there is none) *)
+Fixpoint after_last (sep : N) (x : str) : str :=
+  match x with
+  | [] => []
+  | c :: r => if existsb (N.eqb sep) r then after_last sep r else (if N.eqb c sep then r else c :: r)
+  end.
+Definition ooxml_content_type (lower : str -> str) (tbl : list (str * str)) (target : str) : str :=
+  let ext := lower (after_last DOT target) in
+  match assoc ext tbl with Some v => v | None => s "image/" ++ ext end.
+Definition xlsx_content_type (lower : str -> str) (tbl : list (str * str)) (image_path : str) : str :=
+  let filename := after_last SLASH image_path in
+  let ext := if existsb (N.eqb DOT) filename then lower (after_last DOT filename) else [] in
+  match assoc ext tbl with Some v => v | None => s "image/unknown" end.
